@@ -430,8 +430,11 @@ def write_table(w: W, m, t, ti):
         members = members + props
     if t['note'] and not note_in_settings:
         members = place(members, ('note', 0), w.s.note_pos)
+    split = t.get('idx_split')          # surface choice: the indexes written as two blocks (first `split` ones, then the rest at the end)
     if t['indexes']:
         members = place(members, ('idx', 0), w.s.idx_pos)
+        if split and 0 < split < len(t['indexes']):
+            members = members + [('idx', 1)]
     for kind, k in members:
         if kind == 'col':
             write_column(w, m, t, t['columns'][k], f'{path}.col{k}')
@@ -455,6 +458,8 @@ def write_table(w: W, m, t, ti):
             w.nl()
             w.depth += 1
             for j, i in enumerate(t['indexes']):
+                if split and 0 < split < len(t['indexes']) and (j < split) != (k == 0):
+                    continue
                 write_index(w, i, f'{path}.idx{j}')
             w.depth -= 1
             w.ind()
@@ -735,7 +740,7 @@ def write(m, style: Style = Style(), order=None) -> str:
     return ''.join(t.text for t in tokens(m, style, order))
 
 
-SURFACE_KEYS = ('default_src', 'null_explicit', 'force_paren', 'comment_above', '_written_inline', '_nrefs', 'prop_pos')
+SURFACE_KEYS = ('default_src', 'null_explicit', 'force_paren', 'comment_above', '_written_inline', '_nrefs', 'prop_pos', 'idx_split')
 
 
 def expected(m):
